@@ -295,8 +295,7 @@ func (c *Variant) SetAsObject(value any) {
 		c.value = v2
 	case *Variant:
 		v, _ := c.value.(*Variant)
-		c.typ = v.typ
-		c.value = v.value
+		c.Assign(v)
 	default:
 		c.typ = Object
 	}
@@ -397,6 +396,12 @@ func (c *Variant) Assign(value *Variant) {
 	if value != nil {
 		c.typ = value.typ
 		c.value = value.value
+		// Keep an own copy of the list, as SetAsArray does
+		if array, ok := value.value.([]*Variant); ok {
+			copied := make([]*Variant, len(array))
+			copy(copied, array)
+			c.value = copied
+		}
 	} else {
 		c.typ = Null
 		c.value = nil
